@@ -6,12 +6,13 @@ REPO="$1"; OUT="$2"; HERE="$(cd "$(dirname "$0")/.." && pwd)"
 mkdir -p "$OUT/rsrc"
 cp "$REPO"/src/*.c "$REPO"/src/*.h "$OUT/rsrc/"
 python3 "$HERE/spec/gen_spec.py" "$OUT/spec_gen.h"
-SAN="${REPLAY_SAN--fsanitize=address,undefined -fno-sanitize-recover=undefined}"
+# alignment is excluded: with SKINNY_UNALIGNED the library deliberately uses word accesses at any address (x86)
+SAN="${REPLAY_SAN--fsanitize=address,undefined -fno-sanitize=alignment -fno-sanitize-recover=undefined}"
 objs=""
 for f in "$OUT"/rsrc/*.c; do
   fl=""
   case "$f" in *vec128.c) fl="-msse2";; *vec256.c) fl="-mavx2";; *skinny-internal.c) fl="-msse2 -mavx2";; esac
-  gcc -std=c99 -O1 -g $SAN $fl ${REPLAY_DEFS} -I"$REPO/include" -c "$f" -o "${f%.c}.o"
+  gcc -std=c99 -O1 -g $SAN $fl -DSKINNY_C_VERIF=1 ${REPLAY_DEFS} -I"$REPO/include" -c "$f" -o "${f%.c}.o"
   objs="$objs ${f%.c}.o"
 done
 gcc -O1 -g $SAN -I"$OUT" -I"$HERE/spec" -I"$HERE/replay" -I"$REPO/include" -I"$OUT/rsrc" \
